@@ -230,6 +230,7 @@ impl Check for C03 {
                             host::Anomaly::CloneOfDead(_) => "use-after-drop",
                             host::Anomaly::Garbage { .. } => "garbage-drop",
                             host::Anomaly::ZUnderflow => "z-underflow",
+                            host::Anomaly::ReadOfDead(_) => "read-after-drop",
                         };
                         problems.push((class.to_string(), json!(format!("{x:?}"))));
                     }
